@@ -532,3 +532,57 @@ def loop_fresh(ctx):
     on a path of an iteration that did not assign it."""
     from .common_loopfresh import loop_fresh as run
     run(ctx, ['transactions', 'services.services'], 'the BIP143 amount of an input is the value of an output of ANOTHER previous transaction: verify() rejects a valid transaction, sign() signs over the wrong amount')
+
+
+@PROP.obligation('C01.preimage-kind')
+def preimage_kind(ctx):
+    """Which preimage an input is signed with (legacy SIGHASH_ALL or BIP143) follows from its witness type: Input.__init__ without an explicit
+    witness_type ends as segwit whenever a witness stack or a witness-program scriptPubKey (locking_script 0014.. / 0020..) is given, with
+    or without a script type, and as legacy otherwise (the scenarios of C06.witness-default)."""
+    from . import c06
+    c06.witness_default(ctx)
+
+
+@PROP.obligation('C01.amount-required', canaries=[
+    mut.replace_expr('transactions', 'Transaction.signature_segwit', 'not self.inputs[sign_id].value', 'self.inputs[sign_id].value is None', 'BIP143 preimage built with amount 0 for inputs parsed from raw bytes'),
+])
+def amount_required(ctx):
+    """The BIP143 preimage commits to the amount of the output being spent; a raw transaction does not carry it and Input() defaults to
+    value 0. Transaction.signature_segwit evaluated with that amount falsy (0) reaches a return only for coinbase inputs: otherwise it
+    raises, so sign() refuses instead of signing over amount 0."""
+    q = 'transactions:Transaction.signature_segwit'
+    fn = ctx.repo.func(q)
+    sid = ('var', 'sign_id')
+    val = ('attr', ('index', ('attr', SELF, 'inputs'), sid), 'value')
+
+    def decide(t):
+        if t == val:
+            return False
+        if isinstance(t, tuple) and t and t[0] == 'cmp' and val in (t[2], t[3]):
+            other = t[3] if t[2] == val else t[2]
+            if t[1] in ('is', 'is not') and other is None:
+                return t[1] == 'is not'
+            if t[1] in ('==', '!=') and other == 0:
+                return t[1] == '=='
+            if other == 0 and t[1] in ('<', '>', '<=', '>='):
+                return t[1] in ('<=', '>=')
+        return None
+    it = Interp(ctx.repo, 'transactions', hooks=LAYOUT_HOOKS, self_cls='transactions:Transaction', decide=decide)
+    try:
+        exits = it.run_function(fn, {'sign_id': S(sid, 'int'), 'hash_type': 1})
+    except AnalysisError as e:
+        ctx.undecided('signature_segwit not evaluable with a zero amount: %s' % str(e)[:100])
+    rets = [e for e in exits if e.kind == 'return']
+    raises = [e for e in exits if e.kind == 'raise']
+    ctx.saw('amount 0: %d return path(s), %d raising path(s)' % (len(rets), len(raises)))
+    for e in rets:
+        is_cb = False
+        for t, pol in e.pc:
+            while isinstance(t, tuple) and t and t[0] == 'not':
+                t, pol = t[1], not pol
+            if isinstance(t, tuple) and t and t[0] == 'cmp' and 'coinbase' in (t[2], t[3]) and ((t[1] == '==' and pol) or (t[1] == '!=' and not pol)):
+                is_cb = True
+        if not is_cb:
+            ctx.violate(q, 'with the amount of the spent output equal to 0 (the default of an input parsed from raw bytes) a BIP143 preimage is returned', e.node or fn,
+                        'parse a raw unsigned segwit transaction and sign() it without filling in Input.value: the signature commits to amount 0, verify() is True, the network rejects it')
+    ctx.floor(len(raises), 1, 'raising paths')
